@@ -275,7 +275,7 @@ def run_job(job):
         res["hist"] = {"%s/%s/%s" % k: v for k, v in m.hist().items()}
         res["monitor_wall"] = m.wall
         res["sample"] = sample_events(trace)
-        props = sorted(set(f[0] for f in res["fails"]) - {"DRIFT"})
+        props = sorted(set(f[0] for f in res["fails"]) - {"DRIFT", "BEYOND"})
         if props:
             os.makedirs(REPLAY_DIR, exist_ok=True)
             base = os.path.join(REPLAY_DIR, "%s-%d" % (cs["name"], os.getpid()))
